@@ -8,7 +8,7 @@ use serde_json::json;
 
 pub fn run(rep: &mut Report) {
     quiet_panics();
-    rep.rule = "cell = (algorithm Opt/RevOpt, float type, set shape, sketch size m = ratio x |A∪B| with ratio from 1/100 to 1000, seeded ratios in between, and sketches of ~35000 positions for sets of ~70000 items); per trial fresh random items, A sketched through sketch_slice and B item-wise + end_sketch by the real code; statistics: fraction of equal positions in the float, u64 and u32 views, target J for each (staged z-test on the empirical trial variance; J in {0,1} exact). Distinct = cells; non-trivial: 0<J<1".into();
+    rep.rule = "cell = (algorithm Opt/RevOpt, float type and hasher (FNV; f64 also with the pass-through hasher on items that include 0 and MAX), set shape, sketch size m = ratio x |A∪B| with ratio from 1/100 to 1000, seeded ratios in between, and sketches of ~35000 positions for sets of ~70000 items); per trial fresh random items, A sketched through sketch_slice and B item-wise + end_sketch by the real code; statistics: fraction of equal positions in the float, u64 and u32 views, target J for each (staged z-test on the empirical trial variance; J in {0,1} exact). Distinct = cells; non-trivial: 0<J<1".into();
     // (a_only, b_only, both)
     let shapes: Vec<(&str, usize, usize, usize)> = vec![("third", 2, 2, 2), ("half", 1, 1, 2), ("j09", 1, 1, 18), ("j005", 10, 9, 1), ("disjoint", 3, 4, 0), ("identical", 0, 0, 5), ("nested", 0, 4, 2), ("singletons", 1, 0, 1)];
     let mut ratios: Vec<(String, f64)> = [("1/100", 0.01), ("1/10", 0.1), ("1", 1.), ("10", 10.), ("100", 100.), ("1000", 1000.)].iter().map(|(n, r)| (n.to_string(), *r)).collect();
@@ -23,7 +23,7 @@ pub fn run(rep: &mut Report) {
     // large sketches with sets larger than the sketch (several items per bin, sketch size above 2^15): the resolution of the
     // float values inside a bin matters there
     ratios.push(("1/2@large".to_string(), 0.5));
-    let kinds = [UKind::OptF32, UKind::OptF64, UKind::RevF32, UKind::RevF64];
+    let kinds = [UKind::OptF32, UKind::OptF64, UKind::RevF32, UKind::RevF64, UKind::OptF64NoHash, UKind::RevF64NoHash];
     let t1: u64 = rep.tier.pick(4000, 50_000);
     let mut ci = 0u64;
     for kind in kinds {
@@ -44,7 +44,7 @@ pub fn run(rep: &mut Report) {
                 let (ao, bo, both) = (ao * scale, bo * scale, both * scale);
                 let u = ao + bo + both;
                 let mut m = ((u as f64) * ratio).round().max(1.) as usize;
-                let is_rev = matches!(kind, UKind::RevF32 | UKind::RevF64);
+                let is_rev = kind.is_rev();
                 if is_rev && m > rep.tier.pick(1000, 6000) {
                     m = rep.tier.pick(1000, 6000);
                 }
@@ -69,7 +69,8 @@ pub fn run(rep: &mut Report) {
                 };
                 let seed = subseed(rep.seed, "C08", &[ci]);
                 let (rs, trials) = staged(seed, tt, 3, &targets, |rng, out| {
-                    let ids = fresh_ids(rng, u, 0);
+                    // pass-through hasher kinds: the items are their own hashes, values with a special role (0, MAX) included
+                    let ids = if kind.is_nohash() { let mut v = ids_with_specials(rng, u); shuffle(&mut v, rng); v } else { fresh_ids(rng, u, 0) };
                     let mut a: Vec<u64> = ids[..ao].to_vec();
                     a.extend_from_slice(&ids[ao + bo..]);
                     let mut b: Vec<u64> = ids[ao..].to_vec();
